@@ -258,7 +258,10 @@ OpenMod == On("module") /\ Building /\ Len(ctx) < MaxCtx /\
               IN /\ Len(c.stk) = k /\ \A q \in 1..k : ~Bad(dv[q].val)    \* the stack holds exactly the defaults
                  /\ ctx' = Append([ctx EXCEPT ![Len(ctx)].stk = SubSeq(@, 1, Len(@) - k)],
                                   [Ctx("mod", << Fld(N_mod, TupleV(dv)) >>, << >>, ps, 0)
-                                     EXCEPT !.used = SumOf([q \in 1..k |-> c.stk[Len(c.stk) - k + q].n])])
+                                     EXCEPT !.used = SumOf([q \in 1..k |-> c.stk[Len(c.stk) - k + q].n]),
+                                            (* the defaults' hidden errors are the module's (`a = true || {..}`) *)
+                                            !.cl = IF k = 0 THEN @ ELSE IF k = 1 THEN Worse(@, c.stk[Len(c.stk)].cl)
+                                                   ELSE Worse(Worse(@, c.stk[Len(c.stk) - 1].cl), c.stk[Len(c.stk)].cl)])
                  /\ UNCHANGED << prog, ill, phase, vm >>
 CloseMod == On("module") /\ Building /\ Cur.kind = "mod" /\ Len(Stk) <= 1 /\ Len(Cur.stmts) >= 1 /\
             LET c == Cur
